@@ -34,7 +34,7 @@ Scenarios == JsonDeserialize(IOEnv.SCN)     \* scenario batch written by the har
 LastInstant(s, c, cur) ==          \* latest firing instant <= cur, or -1
   IF c.kind = "sim"
   THEN IF cur < c.thr THEN -1 ELSE IF c.rep = 0 THEN c.thr ELSE cur - ((cur - c.thr) % c.rep)
-  ELSE LET i == cur - ((cur + s.Start - c.thr) % Day) IN IF i < 0 THEN -1 ELSE i
+  ELSE LET i == cur - ((cur + s.Start - c.thr) % Day) IN IF i < 0 \/ (i + s.Start) \div Day < Fd(c) THEN -1 ELSE i
 CtlCheck(s, c, prev, cur) == LET i == LastInstant(s, c, cur) IN [fire |-> i > prev, back |-> cur - i]
 
 \* rule conditions are evaluated at a rule instant e = sim_time with prev = last accepted solve
